@@ -348,6 +348,61 @@ impl PrefixParser {
     }
 }
 
+// verification hook (property C13): read-only views of the private tables of the prefix parser
+#[cfg(feature = "verif")]
+impl PrefixParser {
+    /// every registered unit alias in registration order:
+    /// (alias, accepts short prefixes, accepts long prefixes, metric, binary, full name)
+    pub(crate) fn verif_c13_units(&self) -> Vec<(String, bool, bool, bool, bool, String)> {
+        self.units
+            .iter()
+            .map(|(alias, info)| {
+                (
+                    alias.to_string(),
+                    info.accepts_prefix.short,
+                    info.accepts_prefix.long,
+                    info.metric_prefixes,
+                    info.binary_prefixes,
+                    info.full_name.to_string(),
+                )
+            })
+            .collect()
+    }
+
+    /// the identifiers that are not units (variables, functions, shadowing parameters), sorted
+    pub(crate) fn verif_c13_others(&self) -> Vec<String> {
+        let mut others: Vec<String> = self
+            .other_identifiers
+            .keys()
+            .map(|k| k.to_string())
+            .collect();
+        others.sort();
+        others
+    }
+
+    /// the reserved identifiers, in their order
+    pub(crate) fn verif_c13_reserved(&self) -> Vec<String> {
+        self.reserved_identifiers
+            .iter()
+            .map(|s| s.to_string())
+            .collect()
+    }
+
+    /// the prefix table in its own order: (long name, short names, prefix)
+    pub(crate) fn verif_c13_prefixes() -> Vec<(String, Vec<String>, Prefix)> {
+        Self::prefixes()
+            .iter()
+            .map(|(long, shorts, prefix)| {
+                (
+                    long.to_string(),
+                    shorts.iter().map(|s| s.to_string()).collect(),
+                    *prefix,
+                )
+            })
+            .collect()
+    }
+}
+
 #[cfg(test)]
 mod tests {
     use super::*;
